@@ -172,6 +172,16 @@ func (p *c13H3Peer) serveStream(str quic.Stream) {
 	str.Close()
 }
 
+func c13H3Client(t testing.TB) *Client {
+	cl := C().EnableForceHTTP3().EnableInsecureSkipVerify()
+	if cl.t3 == nil {
+		t.Fatalf("HTTP/3 not available on this toolchain")
+	}
+	// also set the round tripper's own field, for trees where it shadows the client's TLS config
+	cl.t3.TLSClientConfig = &tls.Config{InsecureSkipVerify: true, NextProtos: []string{"h3"}}
+	return cl
+}
+
 // TestVerif_C13_e2eh3: paired runs over HTTP/3 against a frame-level peer on raw quic-go
 // (QPACK via github.com/quic-go/qpack), loopback UDP.
 func TestVerif_C13_e2eh3(t *testing.T) {
@@ -181,15 +191,7 @@ func TestVerif_C13_e2eh3(t *testing.T) {
 	cnt := c13Counter{}
 	peer := c13NewH3Peer(t)
 	defer peer.close()
-	mk := func() *Client {
-		cl := C().EnableForceHTTP3().EnableInsecureSkipVerify()
-		if cl.t3 == nil {
-			t.Fatalf("HTTP/3 not available on this toolchain")
-		}
-		// the HTTP/3 round tripper reads its own TLSClientConfig (C12 finding): set it directly
-		cl.t3.TLSClientConfig = &tls.Config{InsecureSkipVerify: true, NextProtos: []string{"h3"}}
-		return cl
-	}
+	mk := func() *Client { return c13H3Client(t) }
 	base := "https://" + peer.ln.Addr().String()
 	flows := []string{"single", "single", "single", "retry", "redirect"}
 	features := []string{"", "", "", "1xx", "long", "many", "trailer", "empty-value"}
